@@ -7,8 +7,11 @@
     actions.  Every primitive of the world model (callbacks, sends, retrievals, component
     activations, the connection's tick handler, the engine's dispatch) is shown to be such
     a step; the engine contract — an event is never dispatched before the current time or
-    while an earlier tick event of the connection is pending — is a checked hypothesis of
-    the run ([run_ok]), as in C12 (it is what C01 proves of the engine). *)
+    while an earlier tick event of the connection is pending — is a hypothesis of the run
+    here ([run_ok]) and is proved to be an invariant in Contract.v.
+    This file is the one-connection form (global port indices = the connection's indices);
+    ProjectN.v / ContractN.v do the same for any number of connections.  Still missing in
+    all of them: the analogous projection for draining components ([dstep], clause 2). *)
 From Coq Require Import Sorting.Permutation.
 From Akita Require Import Lib.Base Lib.Fifo Lib.Port Lib.Conn C10.Model C10.Proofs C09.Model C09.Proofs.
 Local Open Scope N_scope.
